@@ -81,6 +81,8 @@ MODELS = {
     '@vp_win_readers': dict(c='vp_win_readers', kind='pure'), '@vp_intent_shared': dict(c='vp_intent_shared', kind='pure'), '@vp_intent_excl': dict(c='vp_intent_excl', kind='pure'),
     '@vp_hist_begin': dict(c='vp_hist_begin', kind='pure'), '@vp_hist_end': dict(c='vp_hist_end', kind='pure'),
     '@vp_lin_check': dict(c='vp_lin_check', kind='pure'),
+    '@vp_tab_add': dict(c='vp_tab_add', kind='pure'), '@vp_tab_del': dict(c='vp_tab_del', kind='pure'),
+    '@vp_tab_count': dict(c='vp_tab_count', kind='pure'), '@vp_tab_has': dict(c='vp_tab_has', kind='pure'),
     '@vp_cover': dict(c='vp_cover', kind='pure'),
     '@vp_log': dict(c='vp_log', kind='pure'),
     '@vp_throw_now': dict(c='vp_throw_now', kind='pure'),
